@@ -658,6 +658,62 @@ DoDvSet(s, op) ==
   ELSE Ret(SetBytes(s2, d.b, SetValueInBuffer(bf.bytes, gi.v + d.off, op.t, op.val, op.le)), RUndef, tags)
 
 -----------------------------------------------------------------------------
+(* 25.4 Atomics.load / store / add on one agent.                             *)
+(* ValidateAtomicAccessOnIntegerTypedArray, then the value is converted, then *)
+(* RevalidateAtomicAccess looks at the buffer again.                         *)
+
+\* 𝔽(ToIntegerOrInfinity(value)) as a number of the domain (what Atomics.store returns)
+IntegerValue(x0) ==
+  LET x == ToNumber(x0) IN
+  CASE x.k \in {"nan", "nz"} -> Fin(0)
+    [] x.k \in {"pinf", "ninf"} -> x
+    [] OTHER -> IF x.w = "0" THEN Fin(Trunc(x)) ELSE x
+
+\* -> [ok, r (error result), s1 (state after the index conversion), pos]
+AtomicAccess(s, op) ==
+  LET v == s.views[op.v] bf == s.bufs[v.b]
+      ai == ToIndex(op.a1)
+      s1 == After(s, op, "a1")
+      no(st, r) == [ok |-> FALSE, r |-> r, s1 |-> st, pos |-> 0]
+  IN IF TAOutOfBounds(bf, v) THEN no(s, TypeErr)                     \* ValidateTypedArray
+     ELSE IF v.t = "Uint8C" THEN no(s, TypeErr)                      \* ValidateIntegerTypedArray step 3.b
+     ELSE IF ai.s = "err" THEN no(s1, RangeErr)                      \* ValidateAtomicAccess step 2
+     ELSE IF ai.s # "int" \/ ai.v >= TALength(bf, v) THEN no(s1, RangeErr)   \* step 4 (length read before)
+     ELSE [ok |-> TRUE, r |-> RUndef, s1 |-> s1, pos |-> ai.v * Size(v.t) + v.off]
+\* 25.4.3.4 RevalidateAtomicAccess -> "" | error class
+Revalidate(bf, v, pos) ==
+  IF TAOutOfBounds(bf, v) THEN "TypeError" ELSE IF pos >= Len(bf.bytes) THEN "RangeError" ELSE ""
+
+\* two's complement sum of two little-endian raw byte sequences (GetModifySetValueInBuffer with add)
+RECURSIVE AddRaw(_, _, _, _)
+AddRaw(a, b, j, carry) ==
+  IF j > Len(a) THEN <<>>
+  ELSE LET t == a[j] + b[j] + carry IN <<t % 256>> \o AddRaw(a, b, j + 1, t \div 256)
+
+DoAtomic(s, op) ==
+  IF op.v > Len(s.views) \/ ~EvOK(s, op) THEN Disabled(s) ELSE
+  LET v == s.views[op.v] IN
+  IF v.t \notin IntTypes THEN Disabled(s) ELSE
+  LET a == AtomicAccess(s, op)
+      s2 == IF op.k = "aload" THEN a.s1 ELSE After(a.s1, op, "val")   \* store / add convert the value now
+      bf == s2.bufs[v.b]
+      sz == Size(v.t)
+      tags == ViewTags(s.bufs[v.b], v) \cup ViewTags(bf, v) \cup EvTags(op) \cup {"atomic"}
+      rv == Revalidate(bf, v, a.pos)
+  IN IF ~a.ok THEN Ret(a.s1, a.r, tags)
+     ELSE IF rv # "" THEN Ret(s2, RThrow(rv), tags)
+     \* a shrink that cuts the element in two passes RevalidateAtomicAccess although GetValueFromBuffer's
+     \* precondition fails (gap of the standard): outside the model
+     ELSE IF a.pos + sz > Len(bf.bytes) THEN Disabled(s)
+     ELSE IF op.k = "aload" THEN Ret(s2, RNum(GetValueFromBuffer(bf.bytes, a.pos, v.t, TRUE)), tags)
+     ELSE LET iv == IntegerValue(op.val) IN
+          IF op.k = "astore"
+          THEN Ret(SetBytes(s2, v.b, SetValueInBuffer(bf.bytes, a.pos, v.t, iv, TRUE)), RNum(iv), tags)
+          ELSE LET old == RdBytes(bf.bytes, a.pos, sz)
+                   sum == AddRaw(old, NumericToRawBytes(v.t, iv, TRUE), 1, 0)
+               IN Ret(SetBytes(s2, v.b, WrBytes(bf.bytes, a.pos, sum)), RNum(RawBytesToNumeric(v.t, old, TRUE)), tags)
+
+-----------------------------------------------------------------------------
 (* Dispatcher and observations                                               *)
 
 Step(s, op) ==
@@ -681,9 +737,10 @@ Step(s, op) ==
     [] op.k = "fromlist" -> DoFromList(s, op)
     [] op.k = "dvget"    -> DoDvGet(s, op)
     [] op.k = "dvset"    -> DoDvSet(s, op)
+    [] op.k \in {"aload", "astore", "aadd"} -> DoAtomic(s, op)
 
 OpKinds == {"resize", "grow", "transfer", "detach", "bslice", "newview", "newdv", "get", "set", "fcopy", "fill",
-            "cw", "setarr", "setta", "sub", "slice", "fromta", "fromlist", "dvget", "dvset"}
+            "cw", "setarr", "setta", "sub", "slice", "fromta", "fromlist", "dvget", "dvset", "aload", "astore", "aadd"}
 
 Enc(x) == EncNum(x)
 
@@ -795,10 +852,12 @@ FloatCopy == Act("fcopy")    Fill == Act("fill")          CopyWithin == Act("cw"
 SetFromList == Act("setarr") SetFromTA == Act("setta")    Subarray == Act("sub")
 Slice == Act("slice")        FromTA == Act("fromta")      FromList == Act("fromlist")
 DvGet == Act("dvget")        DvSet == Act("dvset")
+AtomicsLoad == Act("aload")  AtomicsStore == Act("astore") AtomicsAdd == Act("aadd")
 
 Next == \/ Resize \/ Grow \/ Transfer \/ Detach \/ BufSlice \/ NewView \/ NewDataView
         \/ GetElem \/ SetElem \/ FloatCopy \/ Fill \/ CopyWithin \/ SetFromList \/ SetFromTA
         \/ Subarray \/ Slice \/ FromTA \/ FromList \/ DvGet \/ DvSet
+        \/ AtomicsLoad \/ AtomicsStore \/ AtomicsAdd
 
 \* -simulate: TLC would evaluate every successor before choosing one; draw a few operations first instead
 \* (the set expression mentions a variable so that TLC does not treat the draw as a constant)
